@@ -716,6 +716,14 @@ impl<'a> Binder<'a> {
     }
 
     fn bind_select(&mut self, select: &ast::Select) -> Result<LogicalPlan> {
+        // The parser's generic dialect accepts `SELECT FROM t`; a relation with
+        // no columns loses its row count downstream (EXISTS over it is always
+        // false, IN over it indexes column 0 of a zero-column batch).
+        if select.projection.is_empty() {
+            return Err(QueryError::Bind(
+                "SELECT list must contain at least one expression".into(),
+            ));
+        }
         // Named WINDOW definitions for this SELECT; windows are allowed only
         // while the SELECT list binds (set below), never in FROM/WHERE.
         self.allow_window = false;
